@@ -48,15 +48,19 @@ def run_check(prop: str, tier: str, seed: int) -> int:
         # breaks every property whose functions are reached through it)
         anchored = anchored_modules(prop)
         rest = [m for m in sorted(program.modules) if m not in anchored and not m.endswith("__init__") and program.modules[m].functions | program.modules[m].classes]
-        purity.check_modules(ctx, f"{prop}-m", anchored + rest)
+        purity.check_modules(ctx, f"{prop}-mm", anchored + rest)
         # shared rule V: no in-place write through a view of caller-owned data or of an object's stored arrays
         from . import views
 
-        views.check_modules(ctx, f"{prop}-v", anchored, rest, floor=10)
+        views.check_modules(ctx, f"{prop}-vv", anchored, rest, floor=10)
         # shared rule G: one-shot iterators are consumed at most once
         from . import iterators
 
-        iterators.check_modules(ctx, f"{prop}-g", anchored)
+        iterators.check_modules(ctx, f"{prop}-gg", anchored)
+        # shared rule W: decorated public functions mean the same under every calling convention
+        from .rules.common import check_wrappers
+
+        check_wrappers(ctx, f"{prop}-ww", anchored)
         try:
             mod.check(ctx)
         except AnalysisError as e:
